@@ -19,7 +19,7 @@ TABLE = {
     "C14": ("lifesim", dict(quick=(6000, 45), thorough=(300000, 540))),
     "C15": ("rtsim", dict(quick=(5000, 45), thorough=(60000, 540))),
     "C16": ("sigsim", dict(quick=(3000, 45), thorough=(150000, 540))),
-    "C18": ("wssim", dict(quick=(1200, 50), thorough=(40000, 600))),
+    "C18": ("wssim", dict(quick=(2400, 50), thorough=(40000, 600))),
     "C19": ("barsim", dict(quick=(3000, 45), thorough=(150000, 540))),
     "C20": ("tbsim", dict(quick=(6000, 40), thorough=(200000, 480))),
 }
